@@ -313,8 +313,11 @@ Inductive op :=
 | OSnap        (* raw walk of all workspaces + the view through a fresh Project of every root + check() *)
 (* --- pickling several handles in ONE pickle (they keep sharing what they shared) *)
 | OPickle2 (h1 h2 : nat)                       (* restored in this process: two new handles *)
-| OFresh (h1 : nat) (h2 : option nat) (fs : list fop).   (* restored in a freshly started process, which then runs
+| OFresh (h1 : nat) (h2 : option nat) (fs : list fop)    (* restored in a freshly started process, which then runs
                                                            [fs] through the restored handles (0, 1) and exits *)
+(* --- `with job:` / Job.open(): init(validate_statepoint=False), then chdir into the job directory (the working
+   directory itself is not part of the model; leaving the block has no effect in the model) *)
+| OEnter (h : nat).
 
 Inductive oval :=
 | VUnit | VBool (b : bool) | VNum (n : N) | VStr (s : str) | VStrs (l : list str) | VJson (j : json)
@@ -802,6 +805,19 @@ Section WS.
   Definition set_dk (w : world) (hi : nat) (b : bool) : world :=
     let h := getH w hi in set_H w hi (mkH (h_s h) (h_id h) (h_cached h) (h_cell h) b).
 
+  (* Job.open(): init(validate_statepoint=False) trusts _directory_known, else an existing directory, else does the full
+     init(); os.chdir(self.path) then fails with FileNotFoundError if the directory is not there *)
+  Definition enter_job (w : world) (hi : nat) : world * res unit :=
+    let h := getH w hi in
+    let '(w1, r) :=
+      if h_dk h then (w, inl tt)
+      else if isdir (w_fs w) (jobdir w h) then (set_dk w hi true, inl tt)
+      else init false false w hi in
+    match r with
+    | inr e => (w1, inr e)
+    | inl _ => if isdir (w_fs w1) (jobdir w1 (getH w1 hi)) then (w1, inl tt) else (w1, inr (FOs ENOENT))
+    end.
+
   (* Job.remove() *)
   Definition remove_job (w : world) (hi : nat) : world * res unit :=
     let h := getH w hi in
@@ -1122,6 +1138,7 @@ Section WS.
     | ORemove h => let '(w1, r) := remove_job w h in (w1, q, out_unit r)
     | OClear h => let '(w1, r) := clear_job w h in (w1, q, out_unit r)
     | OReset h => let '(w1, r) := reset_job w h in (w1, q, out_unit r)
+    | OEnter h => let '(w1, r) := enter_job w h in (w1, q, out_unit r)
     | ODocSet h k v => let '(w1, r) := doc_set w h k v in (w1, q, out_unit r)
     | OUpdateCache s => let '(w1, r) := update_cache w s in
                         (w1, q, match r with inl n => VOptNum n | inr e => VExn (exn_of e) end)
